@@ -207,7 +207,9 @@ def _segy_worker(item):
         traces = inputs.cube((n, nz), par.G['seed'] + ci)
         text = (('C04 CASE %d ' % ci) * 300)[:3200].encode('ascii')
         inputs.write_segy_traces(sgy, traces, 8.0 + 4.0 * np.arange(nz), H, text=text,
-                                 bin_fields={segyio.BinField.JobID: 4242 + ci, segyio.BinField.LineNumber: -7, segyio.BinField.Traces: n})
+                                 bin_fields={segyio.BinField.JobID: 4242 + ci, segyio.BinField.LineNumber: -7, segyio.BinField.Traces: n,
+                                             segyio.BinField.EnsembleFold: (1, 300)[ci % 2],
+                                             **({segyio.BinField.Interval: 0} if ci % 5 == 2 else {})})        # (interval in the trace headers only)
         keys = KEYS()
         with segyio.open(sgy, strict=False) as s:
             truth = np.array([[int(s.header[i][k]) for k in keys] for i in range(n)], dtype=np.int64)
@@ -363,6 +365,11 @@ def plan(run):
             g = small[(e + j) % len(small)]
             cases.append({'geom': g, 'embed': e, 'vmap': 3, 'bg': ('const', 'zero')[j % 2], 'mat': mat, 'onemid': bool(j % 2),
                           'modes': [m for m in MODES if not (GEOMS[g][0] == 'irr' and m == 'strip')], 'cls': ['v', 'z', 'c']})
+    # header words that duplicate one another (they share ONE stored array under the default detection), on every kind of geometry
+    for j, g in enumerate(('reg2x3', 'reg8x16', 'regx3x3', 'irr3x3', '2dil-6', 'reg5x26')):
+        for mat in ([[0, 1, 2], [0, 1, 2], [1, 1, 1]], [[1, 0, 2], [2, 2, 2], [1, 0, 2]], [[2, 1, 0], [2, 1, 0], [2, 1, 0]]):
+            cases.append({'geom': g, 'embed': (j + len(mat[0])) % len(EMBED), 'vmap': j % 3, 'bg': ('zero', 'const')[j % 2], 'mat': mat, 'onemid': False,
+                          'modes': [m for m in MODES if not (GEOMS[g][0] == 'irr' and m == 'strip')], 'cls': ['d', 'd', 'c']})
     ncases = []
     shapes = [(2, 2), (8, 16), (3, 43), (2, 3), (5, 26)]
     keys = KEYS()
@@ -407,6 +414,11 @@ def judge_segy(run, ci, case, res, ev):
                 run.check(not o['bad_tracefield'], f'C04.tracefield-array[{mode}]', c, o['bad_tracefield'], [])
         else:
             run.ok('C04.outside-precondition[heuristic]')
+            # outside the precondition the property is silent; the model still says what the code does (e.g. true duplicates read back
+            # exactly through their shared array): a disagreement is reported as drift, never as a violation
+            em0 = [m for m in ev['modes'] if m['mode'] == mode][0]
+            if em0['exact'] and (o['bad_fields'] or o['bad_loadall'] or o['bad_emulator']):
+                run.drift(f'{c}: SgzHeaders predicts an exact read-back (outside the heuristic precondition) but fields {o["bad_fields"][:6]} differ')
         if mode != 'strip':
             run.check(o['text_ok'] and o['bin_ok'], f'C04.file-header-bytes[{mode}]', c, {'text': o['text_ok'], 'bin': o['bin_ok']}, 'byte-identical')
             run.check(o['bin_dict_ok'] and o['text0_ok'], f'C04.bin-text-accessors[{mode}]', c, {'bin': o['bin_dict_ok'], 'text0': o['text0_ok']}, 'as segyio')
